@@ -268,7 +268,7 @@ class Runner:
             return
         live = [(k, c) for k, c in cwk if k not in rejected]
         respath = os.path.join(d, name + ".res")
-        tmo = max(60.0, min(float(getattr(self.mod, "RUN_TIMEOUT_S", 600)), self.time_left() + 120))
+        tmo = max(60.0, min(float(getattr(self.mod, "RUN_TIMEOUT_S", 1800)), self.time_left() + 120))
         bad = self._run_bin(cfg, binp, respath, live, tmo)
         with self.lock:
             self._parse(respath, live, cfg)
